@@ -7,4 +7,7 @@ cd "$HERE"
 export PYTHONPATH="$HERE/harness:/repo/src"
 /venv/bin/python -m xsmverif.tables "$HERE/lean" >/dev/null
 cd "$HERE/lean"
-lake build Xsm driver
+# every property module and every line-protocol driver, so that the checks start from a warm build
+PROPS="$(ls Xsm/Properties/*.lean | sed -e 's#/#.#g' -e 's#\.lean$##')"
+EXES="$(sed -n '/^\[\[lean_exe\]\]/,/^name/ s/^name = "\(.*\)"/\1/p' lakefile.toml)"
+lake build Xsm $PROPS $EXES
